@@ -69,9 +69,9 @@ static std::string desc(const Slot& s) {
 static std::string desc1(const Slot& s) {
   if (!s.p) return "{\"alive\":false,\"n\":0,\"topo\":\"C\",\"H\":[],\"V\":[],\"st\":\"\",\"ok\":true}";
   unsigned n = s.p->space_dimension();
-  Polyhedron* a = clone(s); Polyhedron* b = clone(s);
-  std::string H = jsH(a->minimized_constraints(), n), V = jsV(b->minimized_generators(), n);
-  delete a; delete b;
+  struct Hold { Polyhedron* p; explicit Hold(Polyhedron* q) : p(q) {} ~Hold() { delete p; } };
+  Hold a(clone(s)); Hold b(clone(s));
+  std::string H = jsH(a.p->minimized_constraints(), n), V = jsV(b.p->minimized_generators(), n);
   vj::Obj o; o.b("alive", true).i("n", n).s("topo", s.nnc ? "NNC" : "C").raw("H", H).raw("V", V).s("st", status_line(*s.p)).b("ok", s.p->OK());
   return o.str();
 }
